@@ -536,7 +536,7 @@ func splitRaceReports(log string) []string {
 }
 
 func TestC19Concurrent(t *testing.T) {
-	ev.Checks(100, 1000)
+	ev.Checks(60, 600)
 	rapid.Check(t, func(t *rapid.T) {
 		sc := drawScenario(t)
 
